@@ -132,7 +132,8 @@ PROPS['C10'] = {
 }
 
 ARR_FUNCS = ['vflip', 'hflip', 'zflip', 'random_flip', 'transpose', 'rot90', '_pad', 'pad_with_params', 'pad',
-             'cutout', 'random_crop', 'center_crop', 'crop', 'clamping_crop', 'resize', '_resize', 'scale']
+             'cutout', 'random_crop', 'center_crop', 'crop', 'clamping_crop', 'resize', '_resize', 'scale',
+             'longest_max_size', 'smallest_max_size']
 BOX_FUNCS = ['bbox_vflip', 'bbox_hflip', 'bbox_zflip', 'bbox_flip', 'bbox_transpose', 'bbox_rot90',
              'normalize_bbox', 'denormalize_bbox', 'crop_bbox_by_coords', 'bbox_random_crop', 'bbox_center_crop',
              'bbox_crop', 'crop_and_pad_bbox', 'get_random_crop_coords', 'get_center_crop_coords']
